@@ -158,9 +158,11 @@ class CSSMediaRule(cssrule.CSSRuleRules):
                                 token=braceOrEOF, neverraise=True)
 
             if '}' != self._tokenvalue(braceOrEOF):
+                ok = False
                 self._log.error('CSSMediaRule: No "}" found.',
                                 token=braceOrEOF)
             elif nonetoken:
+                ok = False
                 self._log.error('CSSMediaRule: Trailing content found.',
                                 token=nonetoken)
             else:
